@@ -17,6 +17,14 @@ fn encode_array(name: &str, values: &HashMap<&str, &str>) -> Result<Value, Strin
             Ok(length) => {
                 let mut json_vec = vec![];
 
+                // the length is script provided data, a value which no memory can hold is an error
+                if json_vec.try_reserve(length).is_err() {
+                    return Err(format!(
+                        "{} is not a valid JSON array, length: {} is too big.",
+                        name, length
+                    ));
+                }
+
                 for index in 0..length {
                     let array_item_name = format!("{}[{}]", name, index);
                     match encode_any(&array_item_name, values) {
